@@ -190,3 +190,22 @@ Proof.
       apply existsb_exists in E2. destruct E2 as [y [Hy Ey]]. apply Nat.eqb_eq in Ey. subst. congruence.
     + intros x. simpl. reflexivity.
 Qed.
+
+(* ------------------------------------------------------------------ dedupo *)
+Lemma oeqb_eq a b : oeqb a b = true <-> a = b.
+Proof.
+  destruct a as [x|], b as [y|]; simpl; try (split; [discriminate|congruence]); try (split; auto; fail).
+  rewrite Nat.eqb_eq. split; congruence.
+Qed.
+
+Lemma filter_all {A} (p : A -> bool) l : (forall x, In x l -> p x = true) -> filter p l = l.
+Proof.
+  induction l as [|a l IH]; simpl; intros H; auto. rewrite (H a (or_introl eq_refl)). f_equal. apply IH. auto.
+Qed.
+
+Lemma dedupo_NoDup_id l : NoDup l -> dedupo l = l.
+Proof.
+  induction l as [|a l IH]; simpl; intros H; auto. inversion H; subst. rewrite (IH H3). f_equal.
+  apply filter_all. intros x Hx. apply negb_true_iff. destruct (oeqb x a) eqn:E; auto.
+  apply oeqb_eq in E. subst. contradiction.
+Qed.
